@@ -833,8 +833,53 @@ pub fn floor(ctx: &Ctx) -> Vec<(String, bool)> {
     f
 }
 
+/// The interpreter-tier (Miri, ~100 operations/s) workload for one shard: a direct sample of each
+/// input family instead of the enumerations, a few hundred strings in total across 16 shards.
+fn run_tiny(ctx: &mut Ctx, shard: usize, nshards: usize) {
+    let mut s = Src::prng(mix(ctx.seed, 0xc01_7177 + shard as u64));
+    let n = ctx.n(5_000).min(40);
+    gb::header_space_sample(&mut s, n, &mut |b| check(ctx, b));
+    // FCI lengths: this shard's residues, one fill each
+    for len in (0..=40usize).filter(|l| l % nshards == shard) {
+        let fill = [0u8, 0xff, 0x5a][len % 3];
+        let fci = vec![fill; len];
+        check(ctx, &fci);
+        let (pt, fmt) = [(205u8, 1u8), (206, 1), (206, 2), (206, 3), (206, 4)][(len / nshards.max(1)) % 5];
+        let mut v = vec![0x80 | fmt, pt, 0, 0, 0, 0, 0, 1, 0, 0, 0, 2];
+        v.extend_from_slice(&fci);
+        while v.len() % 4 != 0 {
+            v.push(fill);
+        }
+        gb::fix_len(&mut v);
+        check(ctx, &v);
+    }
+    // a few small-alphabet SDES bodies, PRIV pairs and valid packets / hostile strings
+    let mut v = Vec::new();
+    for (l, p) in [(1usize, 1usize), (5, 2), (3, 3), (s.below(40), s.below(40)), (255, 255)] {
+        if (l + p) % nshards == shard % nshards || nshards == 1 {
+            gb::sdes_priv_packet(&mut v, l, p);
+            check(ctx, &v);
+        }
+    }
+    for i in 0..n {
+        let v = if i % 3 == 0 { gb::valid_packet(&mut s) } else { gb::hostile(&mut s) };
+        if v.len() <= 512 {
+            check(ctx, &v);
+        }
+    }
+    if shard == 0 {
+        let mut v = vec![0x80u8, 203, 0, 0];
+        v.resize(8196, 0);
+        gb::fix_len(&mut v);
+        check(ctx, &v);
+    }
+}
+
 /// The C01 workload for one shard.
 pub fn run(ctx: &mut Ctx, shard: usize, nshards: usize) {
+    if ctx.scale < 0.5 {
+        return run_tiny(ctx, shard, nshards);
+    }
     let thorough = ctx.thorough;
     // (a) exhaustive header space (thinned over non-version-2 first bytes in quick)
     if ctx.scale >= 0.5 {
